@@ -278,7 +278,7 @@ def _pg_task(t):
     return {"evals": 1, "nontriv": 1, "viols": viols, "key": repr(("PG",) + tuple(t))}
 
 
-ENV_VALUES = ["10.9.9.9", "*", "192.0.2.1,2001:db8::9"]
+ENV_VALUES = ["10.9.9.9", "*", "192.0.2.1,2001:db8::9", ""]       # "" = defined but empty: nobody is trusted (documented)
 
 
 def _env_child():
@@ -287,7 +287,7 @@ def _env_child():
     import json
     import os
     global DEFAULT_FAI
-    DEFAULT_FAI = split_list(os.environ["FORWARDED_ALLOW_IPS"], DEFAULT_FAI)
+    DEFAULT_FAI = [x.strip() for x in os.environ["FORWARDED_ALLOW_IPS"].split(",") if x.strip()]
     out = []
     n = 0
     for peer_k in PEERS:
